@@ -8,7 +8,7 @@ LEVEL = 'proof'
 DRIVER = 'drv_c13'
 HARNESS = 'c13.cpp'
 SOURCES = ['src/containers/grid/GridIndexMapping.cpp']
-PROOF_MODULES = ['RomeaProofs.Properties.C13']
+PROOF_MODULES = ['RomeaProofs.Properties.C13', 'RomeaProofs.Bridge.C13', 'RomeaProofs.Bridge.C13Cor']
 TRUSTED = ['C++ harness harness/c13.cpp (composite ops map.loc / map.fix / map.scan call computeCellIndexes and '
            'computeCellCenterPosition back to back; size_t indexes are printed as signed 64-bit values)']
 ASSUMPTIONS = ['theorems are over the reals (exact floor/ceil arithmetic, r > 0, lower <= upper); the rounding of '
@@ -437,3 +437,31 @@ def oracle(case, out, stats):
                     fails.append({'kind': 'spacing', 'detail': 'axis %d: centres of cells %d and %d are %r apart, r = %r [L=%r U=%r]' % (
                         i, k, k + 1, known[i][k + 1] - c, r, L, U), 'fields': {'T': T, 'dim': dim, 'axis': i}})
     return fails
+
+
+# ------------------------------------------------------------------ stage G: the anchored functions themselves, translated (DESIGN.md 2.5b)
+def _inst(rec, suf):
+    return [
+        {'cxx': 'GridIndexMapping::GridIndexMapping', 'record': rec, 'sig': 'IntervalType', 'suffix': '_interval' + suf},
+        {'cxx': 'GridIndexMapping::GridIndexMapping', 'record': rec, 'sig': '(const %s &, const %s &)' % ((rec.split('<')[1].split(',')[0],) * 2),
+         'suffix': '_range' + suf},
+        {'cxx': 'GridIndexMapping::computeCellIndexes', 'record': rec, 'suffix': suf},
+        {'cxx': 'GridIndexMapping::computeCellCenterPosition', 'record': rec, 'suffix': suf},
+    ]
+
+
+BRIDGE_SPEC = {
+    'id': 'C13',
+    'sources': ['src/containers/grid/GridIndexMapping.cpp'],
+    # DoubleConv (float <-> double conversions): not needed for today's source (the float instantiations convert only the literal
+    # 0.5, which is exact), but an edit introducing a genuine conversion must still give a generated file that compiles
+    'imports': ['RomeaModel.Rotation'],
+    'opens': ['Romea.Rotation'],
+    'functions': _inst('GridIndexMapping<double, 2>', '_d2') + _inst('GridIndexMapping<double, 3>', '_d3') +
+                 _inst('GridIndexMapping<float, 2>', '_f2') + _inst('GridIndexMapping<float, 3>', '_f3'),
+}
+
+
+def regen(ctx):
+    import bridge
+    return bridge.regen_bridge(ctx, BRIDGE_SPEC)
